@@ -209,3 +209,80 @@ Definition mk_matches_raw (e : expr) (ps : list rawpat) : option expr :=
   | None => None
   | Some l => Some (mk_matches_n e l)
   end.
+
+(* ================= appended after the coverage audit (docs/COVERAGE_AUDIT.md, C01) ================= *)
+
+(* Value.replicate(count) for ANY integer count: a negative count is a TypeError *)
+Definition mk_replicate_z (e : expr) (c : Z) : option expr :=
+  if c <? 0 then None else Some (mk_replicate e (Z.to_nat c)).
+
+(* SwitchValue.__init__ on a tuple holding one integer key: _normalize_patterns drops (with a warning) a key that is not
+   representable in the shape of the test (Const(key, shape).value != key); a kept key becomes to_binary(key & mask, len) *)
+Definition int_case_patterns (sh : shape) (i : Z) : list pattern :=
+  if const_norm sh i =? i then [bin_pattern (width sh) i] else [].
+
+(* ArrayProxy.as_value(): SwitchValue(index, ((i, elem_i) for i in range(len(elems)) if i in range(1 << len(index))));
+   the index may have ANY shape (a signed index reaches only the elements below 2^(len-1)) and there may be more elements
+   than the index can address (they are dropped without being looked at) *)
+Fixpoint array_cases_raw (sh : shape) (elems : list expr) (i : Z) : list (option (list pattern) * expr) :=
+  match elems with
+  | [] => []
+  | x :: r => if i <? 2 ^ width sh then (Some (int_case_patterns sh i), x) :: array_cases_raw sh r (i + 1) else []
+  end.
+Definition mk_array_raw (elems : list expr) (index : expr) : expr :=
+  ESwitch index (array_cases_raw (shape_of index) elems 0).
+(* ArrayProxy.shape(): Shape._unify over ALL elements, addressable or not *)
+Definition array_proxy_shape (elems : list expr) : shape := unify (map shape_of elems).
+(* Array(rows)[i][j] with rows themselves Arrays: ArrayProxy.__getitem__ indexes every row, then the outer proxy selects *)
+Definition mk_array2 (rows : list (list expr)) (i j : expr) : expr :=
+  mk_array_raw (map (fun row => mk_array_raw row j) rows) i.
+(* Array(rows)[i][k] with a Python int k: row[k] of every row (IndexError outside range(-len, len)) *)
+Definition py_list_get (l : list expr) (k : Z) : option expr :=
+  let n := Z.of_nat (length l) in
+  if py_in_range k (- n) n then nth_error l (Z.to_nat (if k <? 0 then k + n else k)) else None.
+Definition mk_array2_int (rows : list (list expr)) (i : expr) (k : Z) : option expr :=
+  match opt_map (fun row => py_list_get row k) rows with
+  | None => None
+  | Some l => Some (mk_array_raw l i)
+  end.
+
+(* ---- class of the exception raised while a value is constructed through the public API (operands are constructed
+   first, left to right, then the node's own checks run): 0 = none, 1 = TypeError, 2 = ValueError, 3 = IndexError,
+   4 = SyntaxError (amaranth.hdl._ast.SyntaxError) ---- *)
+Definition first_err (l : list Z) : Z := fold_right (fun c acc => if c =? 0 then acc else c) 0 l.
+Definition case_patterns_ok (w : Z) (c : option (list pattern) * expr) : bool :=
+  match fst c with None => true | Some ps => forallb (pattern_ok w) ps end.
+Fixpoint build_err (e : expr) : Z :=
+  match e with
+  | EConst _ s => if wf_shape s then 0 else 1                      (* Shape(): TypeError *)
+  | ESig _ s => if wf_shape s then 0 else 1
+  | EOp1 o a => first_err [build_err a;
+                           match o with OS => if 0 <? ewidth a then 0 else 2 | _ => 0 end]     (* as_signed(): ValueError *)
+  | EOp2 o a b => first_err [build_err a; build_err b;
+                             match o with OShl | OShr => if sgn (shape_of b) then 1 else 0 | _ => 0 end]   (* __check_shamt *)
+  | ESlice a lo hi => first_err [build_err a;
+                                 if (0 <=? lo) && (lo <=? hi) && (hi <=? ewidth a) then 0 else 3]          (* Slice(): IndexError *)
+  | EPart a off w stride => first_err [build_err a; build_err off;
+                                       if negb (sgn (shape_of off)) && (0 <=? w) && (1 <=? stride) then 0 else 1]   (* Part() *)
+  | ECat parts => first_err (map build_err parts)
+  | ESwitch test cases =>
+      first_err (build_err test :: map (fun c => build_err (snd c)) cases ++
+                 [if forallb (case_patterns_ok (ewidth test)) cases then 0 else 4])                       (* _normalize_patterns *)
+  end.
+
+(* a canonical ill-formed node per exception class, and the result of a partial constructor applied to already
+   constructed operands: the operands' own exceptions come first *)
+Definition bad_of (c : Z) : expr :=
+  if c =? 1 then EConst 0 (Sh (-1) false)
+  else if c =? 2 then EOp1 OS (EConst 0 (Sh 0 false))
+  else if c =? 4 then ESwitch (EConst 0 (Sh 0 false)) [(Some [[None]], EConst 0 (Sh 0 false))]
+  else bad_expr.
+Definition try1 (c : Z) (f : expr -> option expr) (e : expr) : expr :=
+  match f e with Some r => r | None => ECat [e; bad_of c] end.
+Definition try2 (c : Z) (f : expr -> expr -> option expr) (e1 e2 : expr) : expr :=
+  match f e1 e2 with Some r => r | None => ECat [e1; e2; bad_of c] end.
+Definition tryl (c : Z) (f : list expr -> option expr) (l : list expr) : expr :=
+  match f l with Some r => r | None => ECat (l ++ [bad_of c]) end.
+
+(* Value.cast of a member of a plain enum.Enum / IntEnum class with integer members ms: Const(value, Shape.cast(class)) *)
+Definition mk_enum_const (ms : list Z) (v : Z) : expr := EConst v (cast_enum ms).
